@@ -182,7 +182,8 @@ FLIP = {'lt': 'gt', 'le': 'ge', 'gt': 'lt', 'ge': 'le'}
 
 
 class Extractor:
-    def __init__(self, fnode: ast.FunctionDef, inline=None, self_as_param=True):
+    def __init__(self, fnode: ast.FunctionDef, inline=None, self_as_param=True, strip_copies=False):
+        self.strip_copies = strip_copies
         self.fnode = fnode
         a = fnode.args
         self.params = [x.arg for x in a.posonlyargs + a.args]
@@ -241,6 +242,13 @@ class Extractor:
             return self.call(e, p, bound)
         if isinstance(e, (ast.List, ast.Tuple)):
             return ('list', tuple(self.expr(x, p, bound) for x in e.elts))
+        if isinstance(e, ast.Dict):
+            items = []
+            for k, v in zip(e.keys, e.values):
+                if k is None:
+                    raise Unsupported('dict unpacking')
+                items.append((canon(self.expr(k, p, bound)), canon(self.expr(v, p, bound))))
+            return ('dict', tuple(sorted(items, key=repr)))
         if isinstance(e, (ast.ListComp, ast.GeneratorExp, ast.SetComp)):
             return self.comp(e, p, bound)
         if isinstance(e, ast.JoinedStr):
@@ -324,6 +332,8 @@ class Extractor:
                 return mk_not(('any', coll, canon(mk_not(body))))
             if n in ('list', 'tuple') and len(args) == 1:
                 return args[0]
+            if self.strip_copies and n in ('dict', 'set', 'sorted') and len(args) == 1:
+                return args[0]
             if n in ('str', 'float', 'int') and len(args) == 1:
                 return (n, args[0])
             fd = self.inline.get(n)
@@ -335,7 +345,12 @@ class Extractor:
         if isinstance(fn, ast.Attribute):
             if isinstance(fn.value, ast.Name) and fn.value.id in IGNORED_CALL_BASES:
                 return ('opaque-log',)
+            if self.strip_copies and isinstance(fn.value, ast.Name) and fn.value.id == 'copy' \
+                    and fn.attr in ('copy', 'deepcopy') and args:
+                return args[0]
             recv = self.expr(fn.value, p, bound)
+            if self.strip_copies and fn.attr == 'copy' and not args:
+                return recv
             m = self.inline.get(fn.attr)
             if m is not None:
                 v = self.inline_value(m, [recv] + args, p)
@@ -378,7 +393,7 @@ class Extractor:
         """value of a call to a small effect-free helper (method or function), or None."""
         if self.depth >= 3 or fdef is self.fnode:
             return None
-        sub = Extractor(fdef, self.inline)
+        sub = Extractor(fdef, self.inline, strip_copies=self.strip_copies)
         sub.depth = self.depth + 1
         names = [x.arg for x in fdef.args.posonlyargs + fdef.args.args]
         if len(names) < len(argterms):
@@ -477,6 +492,10 @@ class Extractor:
         elif isinstance(target, (ast.Tuple, ast.List)):
             for i, el in enumerate(target.elts):
                 self.assign(el, ('item', val, ('const', i)), p, bound)
+        elif isinstance(target, ast.Subscript):
+            base = self.expr(target.value, p, bound)
+            key = self.expr(target.slice, p, bound)
+            p.effects.append(('setitem', canon(base), canon(key), canon(val)))
         else:
             raise Unsupported('assignment target')
 
@@ -532,6 +551,25 @@ class Extractor:
             return self.call_stmt(st.value, p, bound)
         if isinstance(st, ast.For):
             return self.loop(st, p, bound)
+        if isinstance(st, ast.Try):
+            # try: x = next(gen)  except StopIteration: H     ==   x = next(gen, None); if x is None: H
+            if len(st.body) == 1 and isinstance(st.body[0], ast.Assign) and len(st.handlers) == 1 \
+                    and not st.orelse and not st.finalbody:
+                a = st.body[0]
+                h = st.handlers[0]
+                v = a.value
+                if isinstance(v, ast.Call) and isinstance(v.func, ast.Name) and v.func.id == 'next' \
+                        and len(v.args) == 1 and h.type is not None and 'StopIteration' in ast.unparse(h.type):
+                    val = self.expr(ast.Call(func=v.func, args=[v.args[0], ast.Constant(value=None)], keywords=[]),
+                                    p, bound)
+                    for t in a.targets:
+                        self.assign(t, val, p, bound)
+                    c = self.eq(val, NONE)
+                    pt, pf = p.clone(), p.clone()
+                    pt.cond = mk_and(p.cond, c)
+                    pf.cond = mk_and(p.cond, mk_not(c))
+                    return self.block(h.body, [pt], bound) + [pf]
+            raise Unsupported('try statement')
         if isinstance(st, ast.Continue):
             p.effects.append(('continue',))
             p.done = True
@@ -685,8 +723,8 @@ def outcome(q: Path):
     return ('out', sets, tuple(effs), canon(q.ret) if q.ret is not None else ('fall',))
 
 
-def table_of(fnode, inline=None):
-    ex = Extractor(fnode, inline)
+def table_of(fnode, inline=None, strip_copies=False):
+    ex = Extractor(fnode, inline, strip_copies=strip_copies)
     paths = ex.run()
     return canonical_table(paths)
 
@@ -696,6 +734,8 @@ def show(t, depth=0) -> str:
     if not isinstance(t, tuple) or not t:
         return repr(t)
     k = t[0]
+    if not isinstance(k, str):
+        return '(' + ', '.join(show(x) for x in t) + ')'
     if k == 'const':
         return repr(t[1])
     if k == 'p':
@@ -749,6 +789,12 @@ def show(t, depth=0) -> str:
             cond = ' & '.join(('' if b else '~') + show(a) for a, b in zip(t[1], bits)) or 'always'
             rows.append(f'[{cond}] => {show(r)}')
         return ' || '.join(rows)
+    if k == 'setitem':
+        return f'{show(t[1])}[{show(t[2])}] := {show(t[3])}'
+    if k == 'extend':
+        return f'{show(t[1])}.extend({show(t[2])})'
+    if k == 'dict':
+        return '{' + ', '.join(f'{show(a)}: {show(b)}' for a, b in t[1]) + '}'
     if k == 'filtermap':
         return f'[{show(t[2])} for ' + ' for '.join(f'x in {show(c)} if {show(cond)}' for c, cond in t[1]) + ']'
     if k == 'global':
